@@ -916,6 +916,16 @@ def run_program(sd, prog):
             raise ValueError(k)
 
 
+def plainify(x):
+    """Deep copy of a description with every (fixed) dict turned into a plain
+    dict — what a user writing the description by hand would pass in."""
+    if isinstance(x, dict):
+        return {k: plainify(v) for k, v in x.items()}
+    if isinstance(x, list):
+        return [plainify(v) for v in x]
+    return x
+
+
 def typed_paths(prog, path=()):
     """[(path tuple, type index)] for every typed subcontext of the program;
     list targets get an index in the path."""
@@ -995,7 +1005,7 @@ class C21(Spec):
     def generate(self, rng, idx, tier):
         prog = gen_program(rng)
         fault = rng.choice(["none", "none", "none", "truncate", "delete", "delete_default", "unused", "unused_list", "reuse", "unclosed_bb", "unclosed_sub"])
-        return {"prog": prog, "bits_seed": rng.randrange(1 << 30), "nbytes": rng.choice([64, 64, 200]), "fault": fault, "fsel": rng.randrange(1 << 16), "ones": rng.random() < 0.2}
+        return {"prog": prog, "bits_seed": rng.randrange(1 << 30), "nbytes": rng.choice([64, 64, 200]), "fault": fault, "fsel": rng.randrange(1 << 16), "ones": rng.random() < 0.2, "plain": rng.random() < 0.5}
 
     def shrink(self, case):
         def variants(prog):
@@ -1008,6 +1018,8 @@ class C21(Spec):
 
         for p in variants(case["prog"]):
             yield dict(case, prog=p)
+        if case.get("plain") is False:
+            return
 
     def execute(self, case):  # noqa: C901
         stats = Counter()
@@ -1182,9 +1194,19 @@ class C21(Spec):
                     c, t = fr.choice(cands)
                     c[t].append(c[t][-1] if c[t] else 0)
                     expect_ser = (bs_exc.UnusedTargetError,)
-        # ---- serialise
+        # ---- serialise (half of the runs from a description made of plain
+        # dicts, as a user would supply it: set_context_type then has to
+        # convert every sub-description and keep the tree consistent)
+        if case.get("plain"):
+            ctx_in = plainify(ctx_in)
+            defaults = {}
+            if fault == "delete_default":
+                fault = "none"
+                ctx_in = plainify(_copy.deepcopy(ctx1))
+            stats["serialised-from-plain-dicts"] += 1
         g = SimFile()
         wtr = BitstreamWriter(g)
+        ser = None
         try:
             with Serialiser(wtr, ctx_in, defaults) as ser:
                 run_program(ser, prog)
@@ -1202,6 +1224,13 @@ class C21(Spec):
         if sexc is not None:
             return viol(exc_sig("C21/serialise-raised", sexc), "serialising the deserialised description with the same program raised:\n%s" % short_tb(sexc))
         out = g.getvalue()
+        for path, ty in typed_paths(prog):
+            try:
+                node = walk(ser.context, path)
+            except Exception as e:  # noqa: BLE001
+                return viol("C21/typed-context-unreachable-serialising", "typed subcontext at %r not reachable from the serialiser's context: %r" % (path, e))
+            if type(node) is not SD_TYPES[ty]:
+                return viol("C21/context-type-lost-serialising", "after serialising, the subcontext at %r is a %s, not %s" % (path, type(node).__name__, SD_TYPES[ty].__name__))
         if fault == "delete_default":
             # the default replaced the deleted value: the layout is unchanged
             ctx_d, e2 = None, None
